@@ -312,6 +312,30 @@ func (x *c02G) op() string {
 	if x.pvOn {
 		n = 44
 	}
+	if r.Chance(6) {
+		// shared-memory pointer batches on a connection that never advertised a segment: the
+		// request (zero rows + shm_offset, no log level) is refused with IOError, and the input
+		// stream of a registered stream method is drained; a pointer INPUT batch ends the stream
+		ptr := [][2]string{{"vgi_rpc.shm_offset", Pick(r, []string{"0", "64", ""})}, {"vgi_rpc.shm_length", "8"}}
+		switch r.Intn(4) {
+		case 0:
+			m := append(x.meta(um.name, true), ptr...)
+			return "op w:pointer-request-unary " + x.reqStream(um.params, 0, nil, m)
+		case 1:
+			m := append(x.meta(sm.name, true), ptr...)
+			return "op w:pointer-request-stream " + x.reqStream(sm.params, 0, nil, m) + " " + x.ticks(r.Range(0, 3), -1)
+		case 2:
+			m := append(x.meta(Pick(r, []string{"nope", "__describe__"}), true), ptr...)
+			return "op w:pointer-request-unknown " + x.reqStream(nil, 0, nil, m)
+		default:
+			cells := []int64{0, 3, 99}[:len(sm.params)]
+			in := "S - " + c02BatchStr(0, nil, nil) + " " + c02BatchStr(0, nil, ptr) + " " + c02BatchStr(0, nil, nil)
+			if sm.kind == "exchange" {
+				in = "S " + c02SchemaStr(c02VIn) + " " + c02BatchStr(1, []int64{4}, nil) + " " + c02BatchStr(0, nil, ptr) + " " + c02BatchStr(1, []int64{5}, nil)
+			}
+			return "op w:pointer-input-batch " + x.reqStream(sm.params, 1, cells, x.meta(sm.name, true)) + " " + in
+		}
+	}
 	switch k := r.Intn(n); {
 	case k < 6:
 		return "op w:unary-ok " + x.reqStream(um.params, 1, ucells(goodA), x.meta(um.name, true))
